@@ -35,6 +35,7 @@ def layout_image(A, inp, m, fam, lab, orient, seed, swap, perturb):
         return lay
     image = rc.project_layout(A, lay, onodes, snodes)
     image["st"] = list(inp["st"])
+    image["pad"], image["gap"] = rc.scaled(params.species_branch_padding), rc.scaled(params.gene_branch_spacing)
     for sp in image["species"]:
         for br in sp["branches"]:
             br["fsp"] = m[br["right"] - 1] if br["kind"] == "T" and br["right"] > 0 else 0
@@ -68,6 +69,51 @@ def session(A, job):
 def _worker(chunk):
     A = rc.api()
     return [session(A, job) for job in chunk]
+
+
+def branch_events(layout_event):
+    """Gene-node placements of one computed layout, one event per species, in the
+    form TraceBranches.tla judges (a drift report, outside the listed properties)."""
+    out = []
+    for sp in layout_event["species"]:
+        brs = sp["branches"]
+        if not brs:
+            continue
+        pos = {br["gene"]: k for k, br in enumerate(brs, start=1)}
+        items = [{"k": br["kind"], "w": br["rect"][2], "h": br["rect"][3],
+                  "l": pos.get(br["left"], 0) if br["kind"] in ("D", "T") else 0,
+                  "r": pos.get(br["right"], 0) if br["kind"] == "D" else 0} for br in brs]
+        out.append({"op": "branches", "o": layout_event["orient"], "pad": layout_event["pad"], "gap": layout_event["gap"],
+                    "items": items, "rects": [br["rect"] for br in brs]})
+    return out
+
+
+def branches_model(ctx, sessions, thorough):
+    """Beyond the listed properties, never gating: gene-node placement against
+    Branches.tla.  TLC checks the lemmas of the orientation-neutral computation
+    (and refutes a seeded clamp slip); the placements of the layouts computed in
+    this run are compared with it, differences are counted in the evidence."""
+    consts = {"Sizes": "{4, 8}", "MaxLen": "4" if thorough else "3", "Pad": "4", "Gap": "6", "ClampBug": "FALSE"}
+    mc.explore(ctx, "Branches", "Branches machine: gene nodes inside one species (outside the listed properties)",
+               constants=consts, invariants=["StackInv", "SequenceInv", "ParentInv", "ShiftInv", "MirrorInv", "FoldInv"])
+    res, _ = mc.explore(ctx, "Branches", "ClampBug", constants=dict(consts, ClampBug="TRUE", MaxLen="3", Gap="2"),
+                        invariants=["MirrorInv"], expect_violation=True)
+    ctx.note("gene-node placement (outside the listed properties): the horizontal clamp slip is "
+             + ("refuted by TLC through MirrorInv" if not res.ok else "NOT refuted"))
+    events = [b for evs in sessions for ev in evs if ev["op"] == "layout" and not ev.get("exc")
+              for b in branch_events(ev)]
+    events = events[:20000 if thorough else 4000]
+    if not events:
+        return
+    from lib import trace
+    chunks, index = trace.split_sessions([[e] for e in events], 16)
+    verdicts, stats = trace.validate("TraceBranches", chunks, {"ClampBug": "FALSE"})
+    for n, clauses in verdicts[:3]:
+        ctx.note(f"drift outside the listed properties: gene-node placement {index[n]['items']} ({index[n]['o']}) "
+                 f"differs from Branches.tla: {clauses}")
+    ctx.extra["gene_branches"] = {"species_layouts_compared": len(events), "differ_from_Branches_tla": len(verdicts),
+                                  "tlc_states": stats["states"]}
+    ctx.stage("beyond: gene branches")
 
 
 def run(ctx):
@@ -155,6 +201,7 @@ def run(ctx):
     mc.validate_sessions(ctx, "TraceGeometry", sessions, relevant=CLAUSES, count_traces=sum(len(s) for s in sessions),
                          describe=lambda e, cl: f"{e['op']} event of mapping {e['m']} on {e['in']} (seed {e['seed']}, "
                                                 f"{e.get('orient', '')}) violates {cl}")
+    branches_model(ctx, sessions, thorough)
     sp = [{"sp": 1, "rect": [0, 0, 10, 10], "trunk": [4, 0, 2, 4], "fork": 1, "anchors": [], "branches": []},
           {"sp": 2, "rect": [0, 6, 4, 4], "trunk": [1, 6, 2, 4], "fork": 0, "anchors": [], "branches": []},
           {"sp": 3, "rect": [6, 6, 4, 4], "trunk": [7, 6, 2, 4], "fork": 0, "anchors": [], "branches": []}]
